@@ -1,8 +1,8 @@
-import Mkts.Lemmas.Agg
+import Mkts.Lemmas.Uda
 /-!
 # C23 — Scalar aggregates and gap detection are correct
 
-Model: `Mkts.Agg` (uda/count, uda/min, uda/max, uda/avg, uda/gap, uda/uda.go) over the
+Model: `Mkts.Uda` (uda/count, uda/min, uda/max, uda/avg, uda/gap, uda/uda.go) over the
 bit-level float model `Mkts.Float`.  An aggregate is `New` followed by any number of `Accum` calls
 (`finalState accum new batches`); the SQL pipeline (`AggRunner.Run`, `SelectRelation.Materialize`)
 makes exactly one call with the whole input.  `vss : List (List Int)` is an arbitrary split of the
@@ -18,7 +18,7 @@ values in order.
   occurring values — the IEEE assumption for magnitudes < 2^52 — evaluated pointwise by the driver).
 -/
 namespace Mkts.Props.C23
-open Mkts.Float Mkts.Agg
+open Mkts.Float Mkts.Uda
 
 /-! ## count -/
 
